@@ -364,12 +364,17 @@ def loadVec (w : Nat) (bs : Bytes) : Option (List Nat × Bytes) :=
     else none
   else none
 
-/-- `fi->Read(&x, sizeof(IndexType))` with the CHECK on its (non-zero) return value: a short read
-overwrites only the low bytes of the old (`w`-byte) value -/
+/-- reading `max_field` / `max_index`.  Repaired code (`Gen.RowBlock.loadScalarTyped`, C15-F2): `fi->Read(&x)`, the
+typed read -- all `w` bytes or failure.  Pinned code: `fi->Read(&x, sizeof(IndexType))` with the CHECK on its
+(non-zero) return value: a short read overwrites only the low bytes of the old (`w`-byte) value and counts as
+success. -/
 def loadRaw (w : Nat) (old : Nat) (bs : Bytes) : Option (Nat × Bytes) :=
-  let k := Nat.min w bs.length
-  if k = 0 then none
-  else some (deN (bs.take k) + old % 256 ^ w / 256 ^ k * 256 ^ k, bs.drop k)
+  if Gen.RowBlock.loadScalarTyped then
+    if w ≤ bs.length then some (deN (bs.take w), bs.drop w) else none
+  else
+    let k := Nat.min w bs.length
+    if k = 0 then none
+    else some (deN (bs.take k) + old % 256 ^ w / 256 ^ k * 256 ^ k, bs.drop k)
 
 inductive LoadRes
   | eof                                  -- Load returned false
